@@ -956,12 +956,18 @@ func checkC41(r *mon.Run) {
 		if f, err := os.Create(p); err == nil && pprof.StartCPUProfile(f) == nil {
 			defer pprof.StopCPUProfile()
 		}
+		defer func() {
+			if f, err := os.Create(p + ".allocs"); err == nil {
+				_ = pprof.Lookup("allocs").WriteTo(f, 0)
+				f.Close()
+			}
+		}()
 	}
 	dataplane.VerifInitFramePool()
 	cx := &c41Ctx{r: r, pool: &c41Pool{free: dataplane.VerifFreeFramesCap - 24, total: dataplane.VerifFreeFramesCap - 24}}
 	cx.pool.c = sync.NewCond(&cx.pool.mu)
 
-	first, total := 0, r.Pick(1200, 30000)
+	first, total := 0, r.Pick(300, 30000)
 	if f := r.ReplayFile(); f != "" {
 		var rp struct {
 			Witness struct {
